@@ -376,6 +376,318 @@ theorem allMatches_sound (cl : Classes) (r : Re) (s : Str) (res : List (Str × M
     (h : allMatches cl r s = .ok (res, tail)) : ∀ pm ∈ res, Hit cl s.length (fuelFor r s) r s pm.2 :=
   allMatchesAux_sound cl s.length (fuelFor r s) r s _ false s [] res tail ⟨[], rfl⟩ (by simp) h
 
+/-! ### completeness: a run that FAILS has refuted every way of matching
+
+`run_sound` says what a success means; the repaired `url(...)` remover needs the converse: when an anchored attempt
+reports "no match", then no decomposition of the subject matches the pattern.  `LangX` is the exact declarative
+semantics for that direction: repeat counts are respected, `^` is interpreted (`total`), and an optional iteration
+consumes at least one character (the engine's empty-iteration guard never cuts such a path). -/
+
+/-- `RepX P mn mx w rest`: `w` is `mn` pieces accepted by `P` followed by at most `mx - mn` NON-EMPTY pieces -/
+inductive RepX (P : Str → Str → Prop) : Nat → Option Nat → Str → Str → Prop
+  | done (mx : Option Nat) (rest : Str) : RepX P 0 mx [] rest
+  | must (mn : Nat) (mx : Option Nat) (u v rest : Str) :
+      P u (v ++ rest) → RepX P mn (mx.map (· - 1)) v rest → RepX P (mn + 1) mx (u ++ v) rest
+  | more (mx : Option Nat) (u v rest : Str) :
+      mx ≠ some 0 → u ≠ [] → P u (v ++ rest) → RepX P 0 (mx.map (· - 1)) v rest → RepX P 0 mx (u ++ v) rest
+
+/-- exact semantics (an under-approximation of what the engine finds, an exact description of what it refutes) -/
+def LangX (cl : Classes) (total : Nat) : Re → Str → Str → Prop
+  | .empty, w, _ => w = []
+  | .lit c, w, _ => w = [c]
+  | .notLit c, w, _ => ∃ x, w = [x] ∧ x ≠ c
+  | .any, w, _ => ∃ x, w = [x] ∧ x ≠ 10
+  | .cls neg items, w, _ => ∃ x, w = [x] ∧ classTest cl neg items x = true
+  | .cat a b, w, rest => ∃ u v, w = u ++ v ∧ LangX cl total a u (v ++ rest) ∧ LangX cl total b v rest
+  | .alt a b, w, rest => LangX cl total a w rest ∨ LangX cl total b w rest
+  | .group _ r, w, rest => LangX cl total r w rest
+  | .rep mn mx _ r, w, rest => RepX (LangX cl total r) mn mx w rest
+  | .bos, w, rest => w = [] ∧ rest.length = total
+  | .eos, w, rest => w = [] ∧ (rest = [] ∨ rest = [10])
+
+/-- a repeat `X*` of a one-character item accepts every word of such characters -/
+theorem repX_chars (P : Str → Str → Prop) (x rest : Str) (h : ∀ c ∈ x, ∀ r, P [c] r) : RepX P 0 none x rest := by
+  induction x with
+  | nil => exact RepX.done none rest
+  | cons c t ih =>
+    have := RepX.more (P := P) none [c] t rest (by simp) (by simp) (h c List.mem_cons_self _)
+      (ih (fun d hd => h d (List.mem_cons_of_mem _ hd)))
+    simpa using this
+
+/-- **completeness of `run`**: if the run fails (`.ok none`, i.e. neither a match nor an engine error), then for
+every way `s = w ++ s'` of reading a word `w` of the exact language off the subject, the continuation was called on
+`s'` (with some captures) and failed. -/
+theorem run_complete (cl : Classes) (total : Nat) : ∀ (f : Nat) (r : Re) (s : Str) (caps : Caps) (k : Cont),
+    run cl total f r s caps k = .ok none →
+    ∀ w s', s = w ++ s' → LangX cl total r w s' → ∃ caps', k s' caps' = .ok none := by
+  intro f
+  induction f with
+  | zero => intro r s caps k h; simp [run] at h
+  | succ f ih =>
+    intro r s caps k h w s' es hl
+    cases r with
+    | empty =>
+      simp only [LangX] at hl; subst hl
+      simp only [List.nil_append] at es; subst es
+      exact ⟨caps, by simpa [run] using h⟩
+    | lit c =>
+      simp only [LangX] at hl; subst hl; subst es
+      simp only [run, List.cons_append, List.nil_append, if_true] at h
+      exact ⟨caps, h⟩
+    | notLit c =>
+      obtain ⟨x, rfl, hx⟩ := hl; subst es
+      simp only [run, List.cons_append, List.nil_append] at h
+      rw [if_pos hx] at h
+      exact ⟨caps, h⟩
+    | any =>
+      obtain ⟨x, rfl, hx⟩ := hl; subst es
+      simp only [run, List.cons_append, List.nil_append] at h
+      rw [if_pos hx] at h
+      exact ⟨caps, h⟩
+    | cls neg items =>
+      obtain ⟨x, rfl, hx⟩ := hl; subst es
+      simp only [run, List.cons_append, List.nil_append] at h
+      rw [if_pos hx] at h
+      exact ⟨caps, h⟩
+    | cat a b =>
+      obtain ⟨u, v, rfl, la, lb⟩ := hl
+      simp only [run] at h
+      obtain ⟨c1, h1⟩ := ih a s caps _ h u (v ++ s') (by rw [es, List.append_assoc]) la
+      exact ih b (v ++ s') c1 k h1 v s' rfl lb
+    | alt a b =>
+      simp only [run] at h
+      cases ha : run cl total f a s caps k with
+      | error e => rw [ha] at h; cases h
+      | ok o =>
+        rw [ha] at h
+        cases o with
+        | some r1 => simp at h
+        | none =>
+          simp only at h
+          rcases hl with hl | hl
+          · exact ih a s caps k ha w s' es hl
+          · exact ih b s caps k h w s' es hl
+    | group i r =>
+      simp only [run] at h
+      obtain ⟨c1, h1⟩ := ih r s caps _ h w s' es hl
+      exact ⟨_, h1⟩
+    | rep mn mx greedy r =>
+      simp only [run] at h
+      simp only [LangX] at hl
+      by_cases hmn : mn > 0
+      · rw [if_pos hmn] at h
+        cases hl with
+        | done => exact absurd hmn (by simp)
+        | more => exact absurd hmn (by simp)
+        | must mn' _ u v _ pu hv =>
+          obtain ⟨c1, h1⟩ := ih r s caps _ h u (v ++ s') (by rw [es, List.append_assoc]) pu
+          simp only [Nat.add_sub_cancel] at h1
+          exact ih _ (v ++ s') c1 k h1 v s' rfl hv
+      · rw [if_neg hmn] at h
+        by_cases hmx : mx = some 0
+        · rw [if_pos hmx] at h
+          cases hl with
+          | done => simp only [List.nil_append] at es; subst es; exact ⟨caps, h⟩
+          | must => exact absurd (Nat.succ_pos _) hmn
+          | more _ u v _ hne => exact absurd hmx hne
+        · rw [if_neg hmx] at h
+          -- both the "one more iteration" branch and the tail failed
+          have both : run cl total f r s caps (fun s1 c1 =>
+                if s1.length = s.length then k s1 c1
+                else run cl total f (.rep 0 (mx.map (· - 1)) greedy r) s1 c1 k) = .ok none ∧ k s caps = .ok none := by
+            generalize run cl total f r s caps (fun s1 c1 =>
+                if s1.length = s.length then k s1 c1
+                else run cl total f (.rep 0 (mx.map (· - 1)) greedy r) s1 c1 k) = M at h
+            cases greedy with
+            | true =>
+              simp only [if_true] at h
+              cases M with
+              | error e => simp at h
+              | ok o =>
+                cases o with
+                | none => exact ⟨rfl, h⟩
+                | some r1 => simp at h
+            | false =>
+              simp only [Bool.false_eq_true, if_false] at h
+              cases hk : k s caps with
+              | error e => rw [hk] at h; simp at h
+              | ok o =>
+                rw [hk] at h
+                cases o with
+                | none => exact ⟨h, rfl⟩
+                | some r1 => simp at h
+          cases hl with
+          | done => simp only [List.nil_append] at es; subst es; exact ⟨caps, both.2⟩
+          | must => exact absurd (Nat.succ_pos _) hmn
+          | more _ u v _ _ hu pu hv =>
+            obtain ⟨c1, h1⟩ := ih r s caps _ both.1 u (v ++ s') (by rw [es, List.append_assoc]) pu
+            have hlen : ¬ (v ++ s').length = s.length := by
+              rw [es]
+              cases u with
+              | nil => exact absurd rfl hu
+              | cons x u' => simp only [List.cons_append, List.append_assoc, List.length_cons, List.length_append]; omega
+            rw [if_neg hlen] at h1
+            exact ih _ (v ++ s') c1 k h1 v s' rfl hv
+    | bos =>
+      obtain ⟨rfl, hlen⟩ := hl
+      simp only [List.nil_append] at es; subst es
+      simp only [run] at h
+      rw [if_pos hlen] at h
+      exact ⟨caps, h⟩
+    | eos =>
+      obtain ⟨rfl, hend⟩ := hl
+      simp only [List.nil_append] at es; subst es
+      simp only [run] at h
+      rw [if_pos hend] at h
+      exact ⟨caps, h⟩
+
+/-- one anchored attempt that reports "no match" refutes every non-empty exact match at that position
+(and every empty one unless `must_advance` is set) -/
+theorem attempt_complete (cl : Classes) (total fuel : Nat) (r : Re) (adv : Bool) (sk : Nat) (t : Str)
+    (h : attempt cl total fuel r adv sk t = .ok none) (w s' : Str) (e : t = w ++ s') (hl : LangX cl total r w s') :
+    adv = true ∧ w = [] := by
+  simp only [attempt, bind_eq_ok] at h
+  obtain ⟨res, hr, h⟩ := h
+  cases res with
+  | some sc => simp [pure, Except.pure] at h
+  | none =>
+    obtain ⟨c', hk⟩ := run_complete cl total fuel r t [] _ hr w s' e hl
+    split at hk
+    · rename_i hc
+      simp only [Bool.and_eq_true, beq_iff_eq] at hc
+      refine ⟨hc.1, ?_⟩
+      have := hc.2
+      rw [e, List.length_append] at this
+      exact List.eq_nil_of_length_eq_zero (by omega)
+    · cases hk
+
+/-- the language of a reported match -/
+theorem attempt_lang (cl : Classes) (total fuel : Nat) (r : Re) (adv : Bool) (sk : Nat) (t : Str) (m : Match)
+    (h : attempt cl total fuel r adv sk t = .ok (some m)) : t = m.text ++ m.rest ∧ Lang cl r m.text m.rest ∧ m.start = sk := by
+  simp only [attempt, bind_eq_ok] at h
+  obtain ⟨res, hr, h⟩ := h
+  cases res with
+  | none => simp [pure, Except.pure] at h
+  | some sc =>
+    simp only [pure, Except.pure, Except.ok.injEq, Option.some.injEq] at h
+    subst h
+    obtain ⟨w, s', c', e, l, hk, _⟩ := run_sound cl total _ r t [] _ sc hr
+    split at hk
+    · cases hk
+    · simp only [Except.ok.injEq, Option.some.injEq] at hk
+      subst hk
+      simp only
+      rw [e, take_append_sub]
+      exact ⟨rfl, l, trivial⟩
+
+/-- `Fails … t`: some anchored attempt at `t` reported "no match" -/
+def Fails (cl : Classes) (total fuel : Nat) (r : Re) (t : Str) : Prop :=
+  ∃ adv sk, attempt cl total fuel r adv sk t = .ok none
+
+/-- `re.search` found nothing: the attempt failed at EVERY position -/
+theorem searchAux_none (cl : Classes) (total fuel : Nat) (r : Re) :
+    ∀ (s : Str) (adv : Bool) (sk : Nat), searchAux cl total fuel r adv sk s = .ok none →
+    ∀ a t, s = a ++ t → Fails cl total fuel r t := by
+  intro s
+  induction s with
+  | nil =>
+    intro adv sk h a t e
+    have : a = [] ∧ t = [] := by simpa using e.symm
+    rw [this.2]
+    exact ⟨adv, sk, by simpa [searchAux] using h⟩
+  | cons x u ih =>
+    intro adv sk h a t e
+    simp only [searchAux, bind_eq_ok] at h
+    obtain ⟨o, ho, h⟩ := h
+    cases o with
+    | some m => simp [pure, Except.pure] at h
+    | none =>
+      cases a with
+      | nil => simp only [List.nil_append] at e; subst e; exact ⟨adv, sk, ho⟩
+      | cons y a' =>
+        simp only [List.cons_append, List.cons.injEq] at e
+        exact ih false (sk + 1) h a' t e.2
+
+/-- `re.search` is LEFTMOST: the reported match is an attempt at the end of a prefix `pre` at all of whose
+positions the attempt failed -/
+theorem searchAux_some (cl : Classes) (total fuel : Nat) (r : Re) :
+    ∀ (s : Str) (adv : Bool) (sk : Nat) (m : Match), searchAux cl total fuel r adv sk s = .ok (some m) →
+    ∃ pre, s = pre ++ (m.text ++ m.rest) ∧ m.start = sk + pre.length ∧
+      (∀ a t, pre = a ++ t → t ≠ [] → Fails cl total fuel r (t ++ (m.text ++ m.rest))) ∧
+      ∃ adv' sk', attempt cl total fuel r adv' sk' (m.text ++ m.rest) = .ok (some m) := by
+  intro s
+  induction s with
+  | nil =>
+    intro adv sk m h
+    simp only [searchAux] at h
+    obtain ⟨e, _, hs⟩ := attempt_lang cl total fuel r adv sk [] m h
+    exact ⟨[], by simpa using e, by simp [hs], by intro a t e' hne; simp at e'; exact absurd e'.2 hne, adv, sk, by rw [← e]; exact h⟩
+  | cons x u ih =>
+    intro adv sk m h
+    simp only [searchAux, bind_eq_ok] at h
+    obtain ⟨o, ho, h⟩ := h
+    cases o with
+    | some m' =>
+      simp only [pure, Except.pure, Except.ok.injEq, Option.some.injEq] at h
+      subst h
+      obtain ⟨e, _, hs⟩ := attempt_lang cl total fuel r adv sk (x :: u) m' ho
+      exact ⟨[], by simpa using e, by simp [hs], by intro a t e' hne; simp at e'; exact absurd e'.2 hne, adv, sk, by rw [← e]; exact ho⟩
+    | none =>
+      obtain ⟨pre, e, hst, hpre, hatt⟩ := ih false (sk + 1) m h
+      refine ⟨x :: pre, by rw [e]; rfl, by rw [hst]; simp only [List.length_cons]; omega, ?_, hatt⟩
+      intro a t e' hne
+      cases a with
+      | nil =>
+        simp only [List.nil_append] at e'
+        subst e'
+        exact ⟨adv, sk, by rw [List.cons_append, ← e]; exact ho⟩
+      | cons y a' =>
+        simp only [List.cons_append, List.cons.injEq] at e'
+        exact hpre a' t e'.2 hne
+
+/-- `Chain … s ms tail`: what `re.finditer` returns on the subject `s` — each reported match is preceded by a
+stretch `pre` at all of whose positions the attempt failed, the next search resumes right after the match, and
+in the unmatched `tail` the attempt failed everywhere -/
+def Chain (cl : Classes) (total fuel : Nat) (r : Re) : Str → List (Str × Match) → Str → Prop
+  | s, [], tail => s = tail ∧ ∀ a t, s = a ++ t → Fails cl total fuel r t
+  | s, pm :: rest, tail =>
+    s = pm.1 ++ (pm.2.text ++ pm.2.rest) ∧
+    (∀ a t, pm.1 = a ++ t → t ≠ [] → Fails cl total fuel r (t ++ (pm.2.text ++ pm.2.rest))) ∧
+    (∃ adv sk, attempt cl total fuel r adv sk (pm.2.text ++ pm.2.rest) = .ok (some pm.2)) ∧
+    Chain cl total fuel r pm.2.rest rest tail
+
+theorem allMatchesAux_chain (cl : Classes) (total fuel : Nat) (r : Re) :
+    ∀ (n : Nat) (adv : Bool) (s : Str) (acc res : List (Str × Match)) (tail : Str),
+    allMatchesAux cl total fuel r n adv s acc = .ok (res, tail) →
+    ∃ new, res = acc.reverse ++ new ∧ Chain cl total fuel r s new tail := by
+  intro n
+  induction n with
+  | zero => intro adv s acc res tail h; simp [allMatchesAux] at h
+  | succ n ih =>
+    intro adv s acc res tail h
+    simp only [allMatchesAux, bind_eq_ok] at h
+    obtain ⟨o, ho, h⟩ := h
+    cases o with
+    | none =>
+      simp only [pure, Except.pure, Except.ok.injEq, Prod.mk.injEq] at h
+      exact ⟨[], by simp [h.1], h.2, searchAux_none cl total fuel r s adv 0 ho⟩
+    | some m =>
+      obtain ⟨pre, e, hst, hpre, hatt⟩ := searchAux_some cl total fuel r s adv 0 m ho
+      obtain ⟨new, hres, hch⟩ := ih _ m.rest _ res tail h
+      have htake : s.take m.start = pre := by
+        rw [hst, e]; simp
+      refine ⟨(pre, m) :: new, ?_, e, hpre, hatt, hch⟩
+      rw [hres, htake]
+      simp
+
+/-- **`re.finditer` is complete**: see `Chain` -/
+theorem allMatches_chain (cl : Classes) (r : Re) (s : Str) (res : List (Str × Match)) (tail : Str)
+    (h : allMatches cl r s = .ok (res, tail)) : Chain cl s.length (fuelFor r s) r s res tail := by
+  obtain ⟨new, hres, hch⟩ := allMatchesAux_chain cl s.length (fuelFor r s) r _ false s [] res tail h
+  simp only [List.reverse_nil, List.nil_append] at hres
+  rw [hres]
+  exact hch
+
 /-! ### the only error the engine itself produces is running out of fuel -/
 
 def FuelErr (e : PyErr) : Prop := ∃ site, e = .outOfFuel site
